@@ -7,9 +7,12 @@ mkdir -p build work evidence replays
 # effect table generated from /repo (a Coq source file the build compiles)
 if [ -x effects/gen.sh ]; then bash effects/gen.sh /repo; fi
 # full .vo build (never -vos)
-( cd coq && timeout 3000 ./build.sh ) || { echo "setup: Coq build failed"; exit 1; }
+# make -k: a file that fails does not stop the others; the per-property checks report which theorems are undischarged
+( cd coq && timeout 3000 ./build.sh >build.log 2>&1 ) || echo "setup: some Coq files did not build (see coq/build.log; the checks report the affected properties)"
+[ -f coq/theories/Model/Machine.vo ] || { echo "setup: the model itself did not build"; tail -30 coq/build.log; exit 1; }
 ( cd coq && ./ocaml/build.sh )
 cp /repo/go.sum harness/go.sum 2>/dev/null || true
 ( cd harness && go build -tags verif -o ../build/harness . )
-if [ -d probe ]; then ( cd probe && go build -tags verif -race -o ../build/probe . ) ; fi
+if [ -x probe/run.sh ]; then ( cp /repo/go.sum probe/go.sum 2>/dev/null; cd probe && go build -tags verif -o ../build/probe . && go build -tags verif -race -o ../build/probe-race . ) ; fi
+if [ -x coq/ocaml/build_oracle.sh ]; then ( cd coq && ./ocaml/build_oracle.sh ) || echo "setup: oracle tool did not build"; fi
 echo "setup: ok"
